@@ -153,6 +153,7 @@ def run(ctx):
     for t in ("msg_attr.exec", "msg_attr.query", "variant.attr", "field.attr", "field.serde-default"):
         if ctx.tags.get(t, 0) == 0:
             ctx.violation("TAG", [t], "corpus", f"a corpus program exercising {t}", "none", "corpus adequacy (DESIGN-appendix A 5/6/8/9)")
+    C.corpus_adequacy(ctx, enforce=False)
     ctx.floor("C17.msg_attr", 8)
     ctx.floor("C17.field_attr", 10)
     return check.finish(
